@@ -21,6 +21,13 @@
    value or the error of that code, a handle is named again as issued and
    closed exactly once; "an empty value counts as missing" must be rejected.
    Every row is served by the scripted raw peer to the real client API.
+   End of session is an action of SftpProto (clean exit, close by the peer,
+   EOF inside a packet, loss of the connection with ConnectionLost / a
+   DisconnectError / OSError / BrokenPipeError) with 0..3 requests
+   outstanding: every caller is resolved exactly once within bounded virtual
+   time (AllResolvedAtEnd; "an unclean loss leaves the callers waiting" must
+   be rejected) and a request made afterwards fails at once; on the server
+   side every ending closes each open file once and runs exit() once.
 2. specs/SftpProto/SftpSrvCases.tla (server obligations + errno table as a
    case table): TLC checks the table and prints it; a raw SFTP client sends
    every request type intact, cut at every byte, extended, unsupported type
@@ -86,9 +93,12 @@ def run_tlc(spec, module, tag, consts, invs=(), props=(), view=None,
 
 PROTO_CONSTS = dict(K=3, Kinds=ALLKINDS, MaxReplies=4, MaxCancels=1,
                     UnknownId=99, AllowUnknown='TRUE', CheckType='TRUE',
-                    FailAll='TRUE', DropLate='TRUE')
+                    FailAll='TRUE', DropLate='TRUE', Ends='{}',
+                    EndLeavesWaiters='FALSE')
+ALL_ENDS = ('{"exit", "peer_close", "eof_mid", "conn_lost", "disconnect", '
+            '"oserror", "brokenpipe"}')
 PROTO_INVS = ['OwnReply', 'NoPhantomReply', 'UnknownIdFails',
-              'WaitsIffUnanswered', 'EndsOnlyOnBadId']
+              'WaitsIffUnanswered', 'EndsOnlyOnBadId', 'AllResolvedAtEnd']
 PROTO_PROPS = ['ExactlyOnce', 'LateReplyHarmless']
 
 ATTR_A = ('{"size", "alloc_size", "uid", "gid", "owner", "group", '
@@ -205,6 +215,22 @@ def main(ctx):
         jobs['proto'] = ex.submit(
             run_tlc, PROTO, 'SftpProto', 'c14_proto', pc, PROTO_INVS,
             PROTO_PROPS, 'view', workers=2 if quick else 6)
+        jobs['proto_ends'] = ex.submit(
+            run_tlc, PROTO, 'SftpProto', 'c14_proto_ends',
+            dict(PROTO_CONSTS, Ends=ALL_ENDS, MaxReplies=3,
+                 Kinds='{"status", "handle", "attrs"}'), PROTO_INVS,
+            PROTO_PROPS, 'view', workers=2)
+        jobs['ends_leave'] = ex.submit(
+            run_tlc, PROTO, 'SftpProto', 'c14_ends_leave',
+            dict(PROTO_CONSTS, K=2, MaxReplies=2, Ends=ALL_ENDS,
+                 EndLeavesWaiters='TRUE'), ['AllResolvedAtEnd'], (), 'view')
+        d4 = tlc.workdir('c14_sim4_out')
+        jobs['sim4'] = ex.submit(
+            run_tlc, PROTO, 'SftpProto', 'c14_sim4',
+            dict(PROTO_CONSTS, Ends=ALL_ENDS, AllowUnknown='FALSE',
+                 MaxReplies=3), (), (), None, workers=4,
+            simulate=f'file={d4}/tr,num={60 if quick else 800}', depth=7,
+            seed=ctx.seed * 10 + 7, deadlock=False)
         jobs['proto2'] = ex.submit(
             run_tlc, PROTO, 'SftpProto', 'c14_proto2',
             dict(PROTO_CONSTS, MaxCancels=2, AllowUnknown='FALSE',
@@ -326,6 +352,12 @@ def main(ctx):
         res = {k: f.result() for k, f in jobs.items() if f is not None}
 
     ctx.require_tlc_ok('SftpProto exhaustive', res['proto'])
+    ctx.require_tlc_ok('SftpProto exhaustive with every way the session can '
+                       'end', res['proto_ends'])
+    ctx.require_tlc_ok('SftpProto where an unclean loss of the connection '
+                       'leaves the callers waiting (must violate '
+                       'AllResolvedAtEnd)', res['ends_leave'],
+                       expect_violation='AllResolvedAtEnd')
     ctx.require_tlc_ok('SftpProto exhaustive, two cancellations',
                        res['proto2'])
     ctx.require_tlc_ok('SftpProto where a late reply to a cancelled request '
@@ -373,7 +405,7 @@ def main(ctx):
     ctx.require_tlc_ok('SftpAttrs without pairing rules (must violate '
                        'NothingInvented)', res['attrs_nopair'],
                        expect_violation='NothingInvented')
-    for k in ('sim', 'sim2', 'sim3'):
+    for k in ('sim', 'sim2', 'sim3', 'sim4'):
         if res[k].error and res[k].error != 'timeout':
             raise MachineryError(f'simulate {k}: {res[k].error}\n' +
                                  res[k].output[-2000:])
@@ -381,7 +413,7 @@ def main(ctx):
 
     # ---- 1. client behaviours ---------------------------------------------
     nclient = ncancel = 0
-    for dd in (d, d2, d3):
+    for dd in (d, d2, d3, d4):
         for _name, steps in tlc.read_sim_traces(dd, 'tr_'):
             kinds, events, outcomes, closed = sftp_proto.split_behaviour(
                 [(st['lbl'], st) for _, st in steps])
@@ -495,6 +527,7 @@ def main(ctx):
     tlc.cleanup('c14_sim_out')
     tlc.cleanup('c14_sim2_out')
     tlc.cleanup('c14_sim3_out')
+    tlc.cleanup('c14_sim4_out')
     ctx.require(nclient > 100, f'only {nclient} client behaviours replayed')
     ctx.traces_validated(nclient)
 
@@ -646,6 +679,22 @@ def main(ctx):
                 ctx.divergence(f'SftpHandles: v{v} {r["script"]}: '
                                f'{r["diverged"]}')
         tlc.cleanup('c14_simh_out')
+        # ---- every way the session can end, seen from the server -----------
+        for how in ('close', 'eof_mid', 'abort'):
+            for v in (3, 6):
+                if how == 'abort':
+                    sw.close()
+                    sw = sftp_proto.ServerWorld()
+                r = sftp_proto.server_ending_case(sw, v, how)
+                ctx.count(('server-end', how, v))
+                for clause, text in r['l1']:
+                    violate({'module': 'SftpSrv', 'clause': clause,
+                             'how': how, 'v': v},
+                            f'{clause}: v{v}: {text}',
+                            {'kind': 'server-end', 'how': how, 'v': v})
+                if how == 'abort':
+                    sw.close()
+                    sw = sftp_proto.ServerWorld()
         ctx.traces_validated(nh)
         ctx.notes.append(f'handle life cycle behaviours replayed: {nh}, '
                          f'requests naming an already closed handle: '
